@@ -6,12 +6,13 @@ import Cpl.Driver.OpsBlock
 import Cpl.Driver.OpsRules
 import Cpl.Driver.OpsCtrbl
 import Cpl.Driver.OpsRuleTables
+import Cpl.Driver.OpsMeasures
 
 open Cpl.Proto Cpl.Driver
 
 def dispatch (line : String) : String :=
   let (op, a) := parseLine line
-  let handlers : List (String → Args → Option String) := [opsBits, opsEvolve1D, opsEvolve2D, opsBlock, opsRules, opsCtrbl, opsRuleTables]
+  let handlers : List (String → Args → Option String) := [opsBits, opsEvolve1D, opsEvolve2D, opsBlock, opsRules, opsCtrbl, opsRuleTables, opsMeasures]
   match handlers.findSome? (fun h => h op a) with
   | some out => out
   | none => badOp
